@@ -55,11 +55,11 @@ func fullRequest(supi string, seq int) map[string]interface{} {
 		}},
 		"triggers": []interface{}{map[string]interface{}{"triggerType": "VOLUME_LIMIT", "triggerCategory": "IMMEDIATE_REPORT"}},
 		"pDUSessionChargingInformation": map[string]interface{}{
-			"chargingId": 7,
+			"chargingId":      7,
 			"userInformation": map[string]interface{}{"servedGPSI": "msisdn-0900000000", "servedPEI": "imei-1"},
 			"pduSessionInformation": map[string]interface{}{
 				"pduSessionID": 1, "dnnId": "internet", "pduType": "IPV4",
-				"networkSlicingInfo": map[string]interface{}{"sNSSAI": map[string]interface{}{"sst": 1, "sd": "010203"}},
+				"networkSlicingInfo":       map[string]interface{}{"sNSSAI": map[string]interface{}{"sst": 1, "sd": "010203"}},
 				"servingNetworkFunctionID": map[string]interface{}{"servingNetworkFunctionInformation": map[string]interface{}{"nodeFunctionality": "AMF"}},
 			},
 		},
@@ -145,10 +145,10 @@ var httpHangs int
 
 // notifyCase: a recharge notification whose consumer is not passive.
 //
-//   notifyslow     the consumer answers the notification after 5 s; 300 ms after the recharge request was sent
-//                  a well-formed update for the same subscriber is sent: it must be answered within 4 s
-//   notifyreenter  the consumer sends an update for the same subscriber before it answers the notification;
-//                  that update must be answered within 4 s and the recharge request within 8 s
+//	notifyslow     the consumer answers the notification after 5 s; 300 ms after the recharge request was sent
+//	               a well-formed update for the same subscriber is sent: it must be answered within 4 s
+//	notifyreenter  the consumer sends an update for the same subscriber before it answers the notification;
+//	               that update must be answered within 4 s and the recharge request within 8 s
 //
 // observation: st=<status of the recharge request | hang> fu=<status of the update | hang> fu2=-
 func notifyCase(kind string) string {
